@@ -134,6 +134,14 @@ func (a *apiGen) inputs() string {
 				continue
 			}
 		}
+		// boundary: an unconfirmed transaction the wallet knows, output index exactly one past its last output
+		// (the range check of the manual-input path differs for mined and for unmined previous transactions)
+		if len(a.l.pool) > 0 && a.rn(8) == 0 {
+			t := a.l.pool[a.rn(len(a.l.pool))]
+			items = append(items, fmt.Sprintf("tx:%s/%d", t.name, len(t.outs)))
+			a.g.Stats["in-pending-vout-eq-len"]++
+			continue
+		}
 		t, no, cls := a.txid()
 		a.g.Stats["in-"+cls]++
 		items = append(items, t+"/"+a.vout(no))
